@@ -44,14 +44,30 @@ template <class B, size_t N, class S, size_t M> static void fill(typename B::own
     }
 }
 
+template <int FROM, int TO, size_t N, class V> static void conv_body(const utility::nd_size<N> & s);
+
 template <int FROM, int TO, size_t N, class V, size_t BND> static void conv_h()
+{
+    utility::nd_size<N> s;
+    for (size_t k = 0; k < N; k++) s[k] = vf_nondet_range(1, BND);
+    conv_body<FROM, TO, N, V>(s);
+}
+
+// fixed, larger, non-power-of-two extents (E2 ignored for N=2, E1 and E2 for N=1)
+template <int FROM, int TO, size_t N, class V, size_t E0, size_t E1, size_t E2> static void conv_fixed_h()
+{
+    constexpr size_t e[3] = {E0, E1, E2};
+    utility::nd_size<N> s;
+    for (size_t k = 0; k < N; k++) s[k] = e[k];
+    conv_body<FROM, TO, N, V>(s);
+}
+
+template <int FROM, int TO, size_t N, class V> static void conv_body(const utility::nd_size<N> & s)
 {
     using BF = typename layout_of<FROM, N, V>::type;
     using BT = typename layout_of<TO, N, V>::type;
     using S = typename V::type;
     constexpr size_t M = V::size;
-    utility::nd_size<N> s;
-    for (size_t k = 0; k < N; k++) s[k] = vf_nondet_range(1, BND);
     size_t live0 = vf_heap_live();
     {
         field<BF> f(make_parameter_pack(make_storage<BF, N>(s)));
